@@ -121,7 +121,11 @@ def region_run(ctx, wire_type, avoid=(), follow_exc=True):
     cond_id, entry = regs[0]
     lit = ex.edge_literal(ex.cfg.nodes[cond_id], True)
     # facts established before the type test on the way to it are dropped (sound: fewer facts)
-    init = frozenset([lit]) if lit is not None else frozenset()
+    init = set([lit]) if lit is not None else set()
+    # whatever form the test has (`message['type'] == K`, or a local the type was hoisted into), inside the region the type is K
+    from .facts import const_term
+    init.add(('eq', ex.tb.term(parse_expr("%s['type']" % ctx.R.handler_msg_param)), const_term(wire_type)))
+    init = frozenset(init)
     res = ex.run(start=entry, init=init, avoid=avoid, follow_exc=follow_exc)
     return ex, res, entry
 
